@@ -23,6 +23,7 @@ EXPLANATION = (
     "large enough for the replacement error reply (not re-checked)."
     " Every WebSocketConfig literal leaves tungstenite's outbound limits at their defaults / usize::MAX or gives max_write_buffer_size at least the assumed limit + 14."
     " No Option-typed limit field is ordered with Option's own min / max / clamp / comparison anywhere in the crate (None, meaning no limit, sorts lowest); only that bug pattern is decided, not the arithmetic of a hand-written combination."
+    ' A with_* setter of WebSocketLimits that rebuilds the value takes every field it does not set from self.'
 )
 ASSUMPTIONS = [
     "Message::into_wire_bytes / to_vec emit 48 + len(query) + len(body) bytes (C01 emission-normal-form)",
@@ -206,6 +207,25 @@ def run(facts, R):
                    "%s orders an Option-typed limit with Option's own %s (%s): None (no limit) sorts below every Some, so the combination treats `unlimited` as the tightest value"
                    % (b.path.rsplit("::", 1)[-1], c["name"], txt[:120]), t.get("span"))
     R.note("boundary-table: Option-order combinations of limit fields: %d (none allowed)" % n_ord)
+
+    # a setter changes its own field only: a `with_*` method of WebSocketLimits that rebuilds the value (struct-update syntax) takes every
+    # other field from `self` - `..Self::default()` silently puts the assumed peer limit back to its default and the guard consults a
+    # limit the embedder never chose
+    from analysis.guards import struct_constructions as _sc17
+    n_set = 0
+    for cb_, ci_, cj_, cst_ in _sc17(facts, "websocket_limits::WebSocketLimits"):
+        nm_ = cb_.path.rsplit("::", 1)[-1]
+        if not cb_.path.startswith("websocket_limits::WebSocketLimits::with_") or cb_.argc < 2:
+            continue
+        n_set += 1
+        v_ = Sym(cb_).rvalue(cst_["rv"])
+        for fname_, fv_ in v_[3]:
+            own_ = fv_[0] == "arg" and fv_[1] >= 2
+            kept_ = fv_[0] == "field" and fv_[2] == fname_ and fv_[1][0] == "arg" and fv_[1][1] == 1
+            R.check(own_ or kept_, "boundary-table", cb_.path, "a setter keeps the fields it does not set",
+                    "%s rebuilds the limits with %s = %s: a field it was not asked to set does not come from self (a limit configured earlier in the builder chain is lost)"
+                    % (nm_, fname_, render(fv_)[:80]), cst_.get("span"), "%s = %s" % (fname_, "parameter" if own_ else "self." + fname_))
+    R.note("boundary-table: WebSocketLimits setters that rebuild the value: %d" % n_set)
 
     # ---------------- the transport below the guard refuses nothing the guard admitted: tungstenite rejects (WriteBufferFull, the
     # writer task ends, the connection closes) a frame - its 2..14 header bytes included - that does not fit `max_write_buffer_size`,
